@@ -6,6 +6,7 @@ import ast
 class _Rw(ast.NodeTransformer):
     def __init__(self):
         self.heads = []
+        self.olds = []
 
     def visit_Compare(self, node):
         node = self.generic_visit(node)
@@ -23,6 +24,10 @@ class _Rw(ast.NodeTransformer):
             k = len(self.heads)
             self.heads.append(ast.unparse(node.args[0]))
             return ast.Name(id=f'__head_{k}', ctx=ast.Load())
+        if isinstance(node.func, ast.Name) and node.func.id == 'old' and len(node.args) == 1:
+            k = len(self.olds)
+            self.olds.append(ast.unparse(node.args[0]))
+            return ast.Name(id=f'__old_{k}', ctx=ast.Load())
         return self.generic_visit(node)
 
 
@@ -32,3 +37,12 @@ def rewrite_clause(src):
     tree = rw.visit(tree)
     ast.fix_missing_locations(tree)
     return ast.unparse(tree), rw.heads
+
+
+def rewrite_clause_full(src):
+    """(python source, head expressions, old expressions)"""
+    tree = ast.parse(src.strip(), mode='eval')
+    rw = _Rw()
+    tree = rw.visit(tree)
+    ast.fix_missing_locations(tree)
+    return ast.unparse(tree), rw.heads, rw.olds
